@@ -159,6 +159,7 @@ class _SeekState:
     def __init__(self):
         self.env = {}
         self.none = set()
+        self.bools = {}         # local flags holding a constant True / False
         self.P = {"P": 1}
         self.conds = []
 
@@ -166,6 +167,7 @@ class _SeekState:
         o = _SeekState()
         o.env = dict(self.env)
         o.none = set(self.none)
+        o.bools = dict(self.bools)
         o.P = dict(self.P)
         o.conds = list(self.conds)
         return o
@@ -209,6 +211,12 @@ class _SeekInterp:
         if isinstance(e, ast.UnaryOp) and isinstance(e.op, ast.Not):
             v = self.test(e.operand, st)
             return None if v is None else (not v)
+        if isinstance(e, ast.Name) and e.id in st.bools:
+            return st.bools[e.id]
+        if isinstance(e, ast.Name) and e.id in st.none:
+            return False
+        if isinstance(e, ast.Constant) and isinstance(e.value, bool):
+            return e.value
         if isinstance(e, ast.Compare) and len(e.ops) == 1:
             l, op, r = e.left, e.ops[0], e.comparators[0]
             ls, rs = src(l), src(r)
@@ -226,9 +234,12 @@ class _SeekInterp:
             if isinstance(op, (ast.Is, ast.IsNot)) and isinstance(r, ast.Constant) and r.value is None and isinstance(l, ast.Name):
                 if l.id in st.none:
                     return isinstance(op, ast.Is)
-                if l.id in st.env:
+                if l.id in st.env or l.id in st.bools:
                     return isinstance(op, ast.IsNot)
                 return None
+            if isinstance(op, (ast.Is, ast.IsNot, ast.Eq, ast.NotEq)) and isinstance(r, ast.Constant) and isinstance(r.value, bool) and isinstance(l, ast.Name) and l.id in st.bools:
+                v = st.bools[l.id] == r.value
+                return v if isinstance(op, (ast.Is, ast.Eq)) else not v
         return None
 
     def cond_of(self, e, st, outcome):
@@ -310,8 +321,11 @@ class _SeekInterp:
         if isinstance(target, ast.Name):
             st.env.pop(target.id, None)
             st.none.discard(target.id)
+            st.bools.pop(target.id, None)
             if isinstance(value, ast.Constant) and value.value is None:
                 st.none.add(target.id)
+            elif isinstance(value, ast.Constant) and isinstance(value.value, bool):
+                st.bools[target.id] = value.value
             else:
                 l = lin(value, st.full_env())
                 if l is not None:
